@@ -46,8 +46,17 @@ DenseMatrix triangulate(RandomAccessIterator begin, RandomAccessIterator end, Pa
         embedding.row(landmarks[index_iter]).noalias() = landmarks_embedding.first.row(index_iter);
     }
 
+    // eigenvalues this small compared with the largest one are zero up to rounding
+    const ScalarType zero_eigenvalue = std::numeric_limits<ScalarType>::epsilon() * n_landmarks *
+                                       landmarks_embedding.second.head(target_dimension).maxCoeff();
     for (IndexType i = 0; i < target_dimension; ++i)
-        landmarks_embedding.first.col(i).array() /= landmarks_embedding.second(i);
+    {
+        // (a direction the landmarks do not extend in can not be triangulated, its coordinate is zero)
+        if (landmarks_embedding.second(i) > zero_eigenvalue)
+            landmarks_embedding.first.col(i).array() /= landmarks_embedding.second(i);
+        else
+            landmarks_embedding.first.col(i).setZero();
+    }
 
 #pragma omp parallel
     {
